@@ -126,3 +126,51 @@ def o9_7_confirm(v, out):
     """Native: three level-0 tables, table file writes start to fail, a manual compaction of level 0 is requested on another thread."""
     if out.get('_rc') != 0 and not out.get('_timeout'): return (False, 'native run failed: %s' % out.get('_stderr', '')[-300:])
     return (out.get('requester') == 'stuck' or bool(out.get('_timeout')), 'native: the manual compaction failed in the background (%s injected failures); requester=%s' % (out.get('injected_failures'), out.get('requester')))
+
+
+def o9_8_should_schedule(mir, tier):
+    """DB::should_schedule_compaction with every input free (already scheduled, shutting down, recorded error, immutable memtable,
+    manual request, VersionSet::needs_compaction).  Reference: true iff nothing is scheduled yet, the database is neither shutting
+    down nor in a failed state, and there is work (a memtable to flush, a manual request, or a version that needs compaction);
+    the scheduled flag is set exactly when true is returned (and never cleared here): a requester that is told "not scheduled"
+    although work exists waits for a background thread that was never woken."""
+    fn = mir.method('DB', 'should_schedule_compaction')
+    res = Result('O9.8 DB::should_schedule_compaction', [fn.path], 'all six inputs free')
+    t0 = time.time()
+    gf = mir.struct_fields('GuardedDbFields')
+    shutting, needs = Bool('shutting_down'), Bool('version_needs_compaction')
+    for sched in (False, True):
+        for bad in (False, True):
+            for imm in (False, True):
+                for man in (False, True):
+                    S = lib.std_summaries(); P = S['$patterns']
+                    P[r'<parking_lot::lock_api::MutexGuard<.*> as Deref(?:Mut)?>::deref(?:_mut)?'] = lib.ptr_deref
+                    P[r'<Arc<Atomic<bool>> as Deref>::deref'] = lib.ident
+                    P[r'Atomic::load'] = lambda se, env, pc, a, o: lib.one(env, shutting)
+                    P[r'VersionSet::needs_compaction'] = lambda se, env, pc, v: lib.one(env, needs)
+                    ex = Exec(mir, S, loop_bound=3, opaque_calls_ok=True)
+                    g = mir.mk_struct('GuardedDbFields', background_compaction_scheduled=BoolVal(sched), maybe_bad_database_state=Enum('Some', (Enum('IO', ({'str': 'e'},), 'RainDBError'),)) if bad else Enum('None'),
+                                      maybe_immutable_memtable=Enum('Some', ({'abstract': True},)) if imm else Enum('None'), maybe_manual_compaction=Enum('Some', ({'abstract': True},)) if man else Enum('None'),
+                                      version_set={'abstract': True, '__ty': 'VersionSet'})
+                    def k(ret, env, pc, ex=ex, sched=sched, bad=bad, imm=imm, man=man):
+                        gv = ex.deref(env, Ref('$g')); flag = gv[gf.index('background_compaction_scheduled')]
+                        flag = flag if not isinstance(flag, bool) else BoolVal(flag)
+                        want = And(BoolVal(not sched and not bad), Not(shutting), Or(BoolVal(imm or man), needs))
+                        posts = [('should_schedule_compaction does not answer "schedule" exactly when nothing is scheduled, the database is healthy and not shutting down, and work exists (a waiting flush or manual request would never be served, or work is scheduled twice / in a failed state)', ret == want),
+                                 ('the scheduled flag is not set exactly when a compaction is to be scheduled (or an existing flag is cleared)', flag == Or(BoolVal(sched), want))]
+                        res.cases['scheduled=%s error=%s imm=%s manual=%s' % (sched, bad, imm, man)] = 1
+                        for label, post, m in ex.check_posts(posts, pc):
+                            res.violations.append({'label': label, 'case': {'scheduled': sched, 'error': bad, 'immutable_memtable': imm, 'manual_request': man, 'shutting_down': bool(mval(m, shutting)), 'needs_compaction': bool(mval(m, needs))},
+                                                   'replay': ['compact_waiters'], 'expect_hang': True})
+                    ex.top(fn, [{'abstract': True, '__ty': 'PortableDatabaseState', 0: 'x'}, Ref('$guard')], {'$state': {}, '$g': g, '$guard': Ref('$g')}, [], k)
+                    res.absorb(ex)
+    res.wall_s = time.time() - t0
+    if res.violations: res.status = 'violation'
+    return res
+
+
+def o9_8_confirm(v, out):
+    """Native: three threads call compact_range concurrently for several rounds (manual requests while flushes are pending); all must return."""
+    if out.get('_timeout'): return (True, 'native: concurrent compact_range calls did not all return within the watchdog time')
+    if out.get('_rc') != 0: return (False, 'native run failed: %s' % out.get('_stderr', '')[-300:])
+    return (out.get('all_returned') != 'true', 'native: %s' % {k: x for k, x in out.items() if not k.startswith('_')})
